@@ -39,6 +39,8 @@ type Ctx struct {
 	obs     []Obligation
 	curRule string
 	paths   int
+
+	copyChecked map[string]bool
 }
 
 func (c *Ctx) pkgPaths() []string {
